@@ -1,10 +1,102 @@
 """C16 - reference-count overflow terminates the process instead of wrapping."""
 from .. import atomics, balance, cfg, core, model
 from ..effects import ZERO, vget
-from ..facts import operand_const, operand_local
+from ..facts import operand_const, operand_local, operand_place
 from . import c04
 
 PROP = "C16"
+
+
+INT_BITS = {"u8": 8, "i8": 8, "u16": 16, "i16": 16, "u32": 32, "i32": 32, "u64": 64, "i64": 64, "u128": 128, "i128": 128}
+
+
+def _ty_bits(F, ty_idx, wb):
+    s = F.ts(ty_idx)
+    if s in ("usize", "isize"):
+        return wb, s[0] == "i"
+    if s in INT_BITS:
+        return INT_BITS[s], s[0] == "i"
+    return None, False
+
+
+def width_eval(F, B, op, wb, depth=0):
+    """Value of an integer operand if the target's pointer width were `wb` bits: named std constants (`isize::MAX`, `usize::BITS`)
+    are recomputed, casts truncate to the width of their target type, local constants are evaluated from their initialiser."""
+    import re
+
+    if depth > 12:
+        return None
+    c = operand_const(op)
+    if c is not None:
+        text = c.get("text") or ""
+        m = re.search(r"<impl (\w+)>::(MAX|MIN|BITS)$", text)
+        if m:
+            nm, what = m.group(1), m.group(2)
+            nb = wb if nm in ("usize", "isize") else INT_BITS.get(nm)
+            if nb is None:
+                return None
+            signed = nm[0] == "i"
+            if what == "BITS":
+                return nb
+            if what == "MAX":
+                return (1 << (nb - 1)) - 1 if signed else (1 << nb) - 1
+            return -(1 << (nb - 1)) if signed else 0
+        for cb in F.raw.get("const_bodies", []):
+            if cb["key"] == text or text.endswith("::" + cb["key"]) or cb["key"].endswith(text):
+                CB = cfg.Body(cb)
+                return width_eval(F, CB, {"cp": {"l": 0, "p": []}}, wb, depth + 1)
+        if "int" in c:
+            nb, _sg = _ty_bits(F, c["ty"], wb)
+            v = c["int"]
+            if nb is not None and v >= (1 << nb):
+                return None  # a literal that does not fit the narrower type: such a program would not compile there
+            return v
+        return None
+    pl = operand_place(op)
+    if pl is None:
+        return None
+    if pl["p"]:
+        if len(pl["p"]) == 1 and isinstance(pl["p"][0], dict) and pl["p"][0].get("f") == 0 and pl["p"][0].get("adt") == "(tuple)":
+            d = B.single_def(pl["l"])
+            if d and d[0] == "assign" and d[3]["k"] == "binop" and d[3]["op"].endswith("WithOverflow"):
+                return _wfold(F, B, d[3]["op"][: -len("WithOverflow")], d[3], wb, depth)
+        return None
+    d = B.single_def(pl["l"])
+    if d is None or d[0] != "assign":
+        return None
+    rv = d[3]
+    if rv["k"] == "use":
+        return width_eval(F, B, rv["op"], wb, depth + 1)
+    if rv["k"] == "cast" and rv["cast"].startswith("IntToInt"):
+        v = width_eval(F, B, rv["op"], wb, depth + 1)
+        nb, signed = _ty_bits(F, rv["ty"], wb)
+        if v is None or nb is None:
+            return None
+        v &= (1 << nb) - 1
+        if signed and v >> (nb - 1):
+            v -= 1 << nb
+        return v
+    if rv["k"] == "binop":
+        return _wfold(F, B, rv["op"].replace("Unchecked", ""), rv, wb, depth)
+    if rv["k"] == "unop" and rv["op"] == "Not":
+        v = width_eval(F, B, rv["a"], wb, depth + 1)
+        nb, _sg = _ty_bits(F, B.b["locals"][pl["l"]]["ty"], wb)
+        if v is None or nb is None:
+            return None
+        return (~v) & ((1 << nb) - 1)
+    return None
+
+
+def _wfold(F, B, op, rv, wb, depth):
+    x = width_eval(F, B, rv["a"], wb, depth + 1)
+    y = width_eval(F, B, rv["b"], wb, depth + 1)
+    if x is None or y is None:
+        return None
+    try:
+        return {"Add": lambda: x + y, "Sub": lambda: x - y, "Mul": lambda: x * y, "Shl": lambda: x << y, "Shr": lambda: x >> y, "BitAnd": lambda: x & y,
+                "BitOr": lambda: x | y, "BitXor": lambda: x ^ y, "Div": lambda: x // y, "Rem": lambda: x % y}[op]()
+    except (KeyError, ZeroDivisionError, ValueError):
+        return None
 
 
 def run(ctx, rep):
@@ -48,14 +140,34 @@ def run(ctx, rep):
                 rep.bad("R-OVFGUARD", key + "/threshold", "the overflow guard is `old %s %d`; it must trip exactly when the count has passed isize::MAX (%d)" % ({"Gt": ">", "Ge": ">=", "Lt": "<", "Le": "<=", "Eq": "==", "Ne": "!="}[op], k, imax), F.loc(b, tt["span"]), tag)
             else:
                 rep.ok("R-OVFGUARD", key + "/threshold", "old %s %d" % (op, k), cfg=tag)
+                # the same on targets of another pointer width: the threshold is re-evaluated from its defining expression
+                # (`i64::MAX as usize` equals isize::MAX on this host only)
+                wrong = []
+                for wb in (16, 32, 64):
+                    v = width_eval(F, B, d["const_op"], wb)
+                    wmax = (1 << (wb - 1)) - 1
+                    if v is None:
+                        wrong = None
+                        break
+                    good_w = (op == "Gt" and v == wmax) or (op == "Ge" and v in (wmax, wmax + 1))
+                    if not good_w:
+                        wrong.append((wb, v, wmax))
+                if wrong is None:
+                    rep.notes.append("threshold expression could not be re-evaluated for other pointer widths (only the host's value was checked): %s" % key)
+                    rep.ok("R-OVFGUARD", key + "/threshold-widths", "not evaluable; host width checked", cfg=tag, nontrivial=False)
+                elif wrong:
+                    wb, v, wmax = wrong[0]
+                    rep.bad("R-OVFGUARD", key + "/threshold-widths", "on a %d-bit target the overflow guard's threshold evaluates to %#x instead of isize::MAX (%#x): the guard never trips there (or trips on sound counts) - the constant is computed from a fixed-width integer" % (wb, v, wmax), F.loc(b, tt["span"]), tag)
+                else:
+                    rep.ok("R-OVFGUARD", key + "/threshold-widths", "isize::MAX on 16/32/64-bit targets", cfg=tag)
             # the tripped edge calls something that neither returns nor unwinds; the handle is built only on the other edge
             trip = [tgt for tgt, tv in d["truth"].items() if tv]
             safe = [tgt for tgt, tv in d["truth"].items() if not tv]
             make_bbs = set()
             for p in A.paths[key]:
                 for e in p.events:
-                    if e["kind"] == "MAKE":
-                        make_bbs.add(e["bb"])
+                    if e["kind"] == "MAKE" or (e["kind"] == "CALL" and vget(e["vec"], "make_agg") > 0):
+                        make_bbs.add(e["bb"])  # the handle aggregate, or a local constructor that builds it (`from_raw_inner`)
             dom = B.dominators()
             ok_edges = True
             why = None
